@@ -1,7 +1,7 @@
 (* Proofs/ExecRmwProofs2.v -- INC/DEC (n) and ADC/SBC (n),imm | (n),A on internal memory, every prefix (continues ExecRmwProofs.v). *)
 From Coq Require Import ZArith NArith List Bool Lia.
 From BE Require Import Model.TableTypes Gen.Tables Model.Regs Model.Decode Model.IL Model.Lift Model.Static Model.Spec
-  Model.Emu Proofs.AluProofs Proofs.ExecProofs Proofs.AccessProofs Proofs.ExecMemProofs Proofs.ExecAluMemProofs Proofs.ExecRmwProofs.
+  Model.Emu Proofs.AluProofs Proofs.ExecProofs Proofs.AccessProofs Proofs.ExecMemProofs Proofs.ExecAluDefs Proofs.ExecRmwDefs.
 Import ListNotations.
 Open Scope Z_scope.
 (* INC / DEC (n): Z only *)
